@@ -205,25 +205,32 @@ pub struct EntRec {
     pub polls_after_finish: u64,
 }
 
-pub struct MonEntity {
+/// What the harness entity can use as `Entity::Data`.
+pub trait HData: bytes::Buf + From<Vec<u8>> + From<&'static [u8]> + Send + Sync + 'static {}
+impl<T: bytes::Buf + From<Vec<u8>> + From<&'static [u8]> + Send + Sync + 'static> HData for T {}
+
+pub struct MonEntity<D = Bytes> {
     pub spec: Arc<EntSpec>,
     pub rec: Arc<Mutex<EntRec>>,
+    _d: std::marker::PhantomData<fn() -> D>,
 }
 
-impl MonEntity {
-    pub fn new(spec: EntSpec) -> (MonEntity, Arc<Mutex<EntRec>>) {
+impl<D> MonEntity<D> {
+    pub fn new(spec: EntSpec) -> (MonEntity<D>, Arc<Mutex<EntRec>>) {
         let rec = Arc::new(Mutex::new(EntRec::default()));
         (
             MonEntity {
                 spec: Arc::new(spec),
                 rec: rec.clone(),
+                _d: std::marker::PhantomData,
             },
             rec,
         )
     }
 }
 
-struct RangeStream {
+struct RangeStream<D> {
+    _d: std::marker::PhantomData<fn() -> D>,
     spec: Arc<EntSpec>,
     rec: Arc<Mutex<EntRec>>,
     start: u64,
@@ -238,8 +245,8 @@ struct RangeStream {
     empty_run: u32,
 }
 
-impl Stream for RangeStream {
-    type Item = Result<Bytes, BoxError>;
+impl<D: HData> Stream for RangeStream<D> {
+    type Item = Result<D, BoxError>;
 
     fn size_hint(&self) -> (usize, Option<usize>) {
         if !self.spec.plan.hint_exact {
@@ -295,12 +302,12 @@ impl Stream for RangeStream {
                     }
                     FaultKind::ExtraByte if f.at == 0 && !this.extra_sent => {
                         this.extra_sent = true;
-                        return Poll::Ready(Some(Ok(Bytes::from_static(&[0xEE]))));
+                        return Poll::Ready(Some(Ok(D::from(vec![0xEE]))));
                     }
                     FaultKind::ExtraChunk if remaining == 0 => {
                         if !this.extra_sent {
                             this.extra_sent = true;
-                            return Poll::Ready(Some(Ok(Bytes::from_static(&[0xEE]))));
+                            return Poll::Ready(Some(Ok(D::from(vec![0xEE]))));
                         }
                     }
                     _ => {}
@@ -348,7 +355,7 @@ impl Stream for RangeStream {
             this.extra_sent = true;
         }
         this.done += n;
-        Poll::Ready(Some(Ok(Bytes::from(v))))
+        Poll::Ready(Some(Ok(D::from(v))))
     }
 }
 
@@ -363,9 +370,9 @@ fn wait_for_next_second() {
     }
 }
 
-impl http_serve::Entity for MonEntity {
+impl<D: HData> http_serve::Entity for MonEntity<D> {
     type Error = BoxError;
-    type Data = Bytes;
+    type Data = D;
 
     fn len(&self) -> u64 {
         if self.spec.slow_calls {
@@ -377,7 +384,7 @@ impl http_serve::Entity for MonEntity {
     fn get_range(
         &self,
         range: Range<u64>,
-    ) -> Pin<Box<dyn Stream<Item = Result<Bytes, BoxError>> + Send + Sync>> {
+    ) -> Pin<Box<dyn Stream<Item = Result<D, BoxError>> + Send + Sync>> {
         let call = {
             let mut r = self.rec.lock().unwrap();
             r.get_range.push((range.start, range.end));
@@ -389,7 +396,8 @@ impl http_serve::Entity for MonEntity {
             _ => 0,
         };
         let fault = fault.filter(|f| f.kind != FaultKind::Overrun);
-        Box::pin(RangeStream {
+        Box::pin(RangeStream::<D> {
+            _d: std::marker::PhantomData,
             spec: self.spec.clone(),
             rec: self.rec.clone(),
             start: range.start,
